@@ -727,6 +727,9 @@ theorem convExpr_sim (S : Sem V) (fuel : Nat) (hConst : ∀ l, ∃ c, constOf S 
             obtain ⟨ev4, r4, x4, c4⟩ := op_node_sim S fuel hm3 hop h4 c3
             exact ⟨_, evalNodes_seq ev1 (evalNodes_seq ev2 (evalNodes_seq ev3 ev4)), r4,
               x1.trans m1 (x2.trans m2 (x3.trans m3 x4)), c4⟩
+  | .subscript base idx, tgt, env, s, s', x, ns, pv, hL, hR, hs, he, h => by
+    unfold evalExpr at he
+    cases he
   | .other us, tgt, env, s, s', x, ns, pv, hL, hR, hs, he, h => by
     unfold convExpr at h
     exact (failM_ok h).elim
@@ -1193,6 +1196,7 @@ theorem convTop_sl_sim (S : Sem V) (fuel : Nat) (hConst : ∀ l, ∃ c, constOf 
           cases he
           unfold convTop at h
           mbind h with p s1 h1
+          have h1 := (onlyLast_ok h1).2
           obtain ⟨outs1, ns1⟩ := p
           try dsimp only at h
           have hall : ∃ single, convRetAll L inputs single es 0 [] s = .ok ((outs1, ns1), s1) := by
